@@ -402,14 +402,54 @@ def reference_sides(ctx, col: Collector, rule: str):
                     col.ok(rule, cons, f'col{side}= derives from {sorted(d & need)} only', node=last.node, file=fi.file)
         col.floor(rule, 'Reference(...) returns in ReferenceBlueprint.build', nret, 1)
         # each endpoint column comes from subscripting the located table (raises ColumnNotFoundError when absent)
+        ep, _fn = endpoint_resolution(ctx, fi)
         for side in ('1', '2'):
-            ok = False
-            for n in walk_no_nested(fi.node):
-                if isinstance(n, (ast.ListComp, ast.GeneratorExp)) and isinstance(n.elt, ast.Subscript) and isinstance(n.elt.value, ast.Name) \
-                        and n.elt.value.id == f'table{side}':
-                    ok = True
-                if isinstance(n, ast.Subscript) and isinstance(n.value, ast.Name) and n.value.id == f'table{side}' and isinstance(n.ctx, ast.Load):
-                    ok = True
-            col.check(ok, rule, f'ReferenceBlueprint.build:lookup{side}', f'side {side} columns are looked up in the located table',
-                      f'side {side} columns are not obtained by subscripting the located table', node=fi.node, file=fi.file)
+            info = ep[side]
+            cons = f'ReferenceBlueprint.build:lookup{side}'
+            if info['subscripted'] and info['lookups']:
+                col.ok(rule, cons, f'side {side} columns are looked up in the located table', node=fi.node, file=fi.file)
+            elif info['comps'] and not info['subscripted']:
+                col.bad(rule, cons, f'side {side} columns are built as `{norm(info["comps"][0])[:70]}`, not by subscripting the located table (a missing column '
+                        f'would not raise the column-not-found error)', node=fi.node, file=fi.file)
+            else:
+                col.unk(rule, cons, f'cannot see how the side {side} columns are obtained', node=fi.node, file=fi.file)
     guarded(col, rule, 'ReferenceBlueprint.build:sides', f)
+
+
+def endpoint_resolution(ctx, fi: FuncInfo):
+    """Dataflow view of ReferenceBlueprint.build (helpers inlined): for each side the locate_table calls whose result
+    is subscripted to produce the colN= endpoint list, with their arguments resolved to access paths.
+    Returns {side: {'lookups': [(call node, [resolved arg sources], receiver source)], 'subscripted': bool, 'elt_ok': bool,
+                    'other_sources': [source of anything else the table expression can be bound to]}} and the inlined node."""
+    from ..inline import inline_function
+    from .common import value_sources, resolve_names
+    fn = inline_function(ctx.idx, fi)
+    calls = [c for c in ast.walk(fn) if isinstance(c, ast.Call) and isinstance(c.func, ast.Name) and c.func.id == 'Reference']
+    if not calls:
+        raise Unrecognised('ReferenceBlueprint.build does not construct Reference', fi.node)
+    out = {}
+    for side in ('1', '2'):
+        kw = [k for k in calls[0].keywords if k.arg == f'col{side}']
+        if not kw:
+            raise Unrecognised(f'Reference(...) without col{side}= keyword', calls[0])
+        vals = [kw[0].value]
+        if isinstance(kw[0].value, ast.Name):
+            vals = value_sources(fn, kw[0].value.id) or vals
+        info = {'lookups': [], 'subscripted': False, 'other_sources': [], 'comps': []}
+        for v in vals:
+            comps = [v] if isinstance(v, (ast.ListComp, ast.GeneratorExp)) else [c for c in ast.walk(v) if isinstance(c, (ast.ListComp, ast.GeneratorExp))]
+            for comp in comps:
+                info['comps'].append(comp)
+                el = comp.elt
+                if isinstance(el, ast.Subscript):
+                    info['subscripted'] = True
+                    texprs = [el.value]
+                    if isinstance(el.value, ast.Name):
+                        texprs = value_sources(fn, el.value.id) or texprs
+                    for te in texprs:
+                        if isinstance(te, ast.Call) and isinstance(te.func, ast.Attribute) and te.func.attr == 'locate_table':
+                            info['lookups'].append((te, [resolve_names(fn, a) for a in te.args], resolve_names(fn, te.func.value)))
+                        else:
+                            info['other_sources'].append(resolve_names(fn, te))
+        out[side] = info
+    return out, fn
